@@ -677,6 +677,15 @@ def slice_bounds(n, sl):
 
 
 def vec_slice(v, sl, keep=True):
+    if sl.step == -1 and sl.lo is None and sl.hi is None:
+        # v[::-1]: the same elements in reverse order
+        if v.idx is not None:
+            raise Unsupported("[::-1] of a Series")
+        n = v.n
+        inv = None
+        if v.perm is not None:
+            inv = lambda val, p=v.perm, n=n: to_z3(n) - 1 - to_z3(p(val))
+        return Vec(n, lambda k, n=n: v.at(to_z3(n) - 1 - to_z3(k)), elt=v.elt, kind=v.kind, perm=inv)
     lo, ln = slice_bounds(v.n, sl)
     if isinstance(lo, int) and lo == 0:
         at = v.at
